@@ -177,6 +177,19 @@ def py_oracle(d):
                 bad('keyupdate:0x%04x' % sid, sid, vi,
                     'RecordLayer._calcTLS1_3KeyUpdate / calcTLS1_3KeyUpdate_sender/_reciever derive (secret hash, len, key hash, '
                     'len, iv hash, len, cipher, tag), roles = %r; the name denotes %r' % (ku, wantku), fn='_calcTLS1_3KeyUpdate')
+        if m['kx'] == 'TLS13':
+            fit = [True] * 6
+        elif m['auth'] == 'RSA':
+            fit = [True, m['kx'] != 'RSA', False, False, False, False]
+        elif m['auth'] == 'ECDSA':
+            fit = [False, False, True, True, False, False]
+        elif m['auth'] == 'DSS':
+            fit = [False, False, False, False, True, False]
+        else:
+            fit = [False, False, False, False, False, True]
+        if r['filter_cert'] != fit:
+            bad('filter-for-certificate:0x%04x' % sid, sid, vi, 'filter_for_certificate admits the suite for server certificates '
+                '[rsa, rsa-pss, ecdsa, Ed25519, dsa, none] = %r, the name denotes %r' % (r['filter_cert'], fit), fn='filter_for_certificate')
         if r['canon_cipher'] != iana.lib_cipher_name(m):
             bad('cipher-name:0x%04x' % sid, sid, vi, 'canonicalCipherName/getCipherName() = %r, the name denotes %r'
                 % (r['canon_cipher'], iana.lib_cipher_name(m)), fn='canonicalCipherName')
@@ -417,7 +430,7 @@ def meaning_codes(m):
 def brief(r):
     keep = {k: r.get(k) for k in ('sid', 'ver', 'cfg', 'ok', 'outcome', 'wire', 'cli', 'srv', 'fact', 'prfs', 'hkdf',
                                   'c2s', 's2c', 'n', 'error', 'variant', 'exporter', 'post', 'words', 'cred', 'asked',
-                                  'resume', 'psk', 'psks', 'case', 'negauth', 'completed', 'sig_emptied', 'client_view')}
+                                  'resume', 'psk', 'psks', 'case', 'negauth', 'completed', 'sig_emptied', 'client_view', 'multi')}
     return keep
 
 
@@ -497,6 +510,18 @@ def live_cases(ctx, d, quick):
             for cert in (True, False):
                 cases.append({'sid': sid, 'ver': (3, 4), 'cfg': 'client-pinned', 'psks': psks, 'cert': cert, 'post': False,
                               'expect': None, 'seed': ctx.rng.randrange(1 << 30)})
+    # servers with several key pairs (primary + settings.virtual_hosts), every ordered pair of key types, the primary made
+    # unusable for each reason; and the same with a server that picks the suite for the primary but sends the alternative
+    # pair (the client must refuse a certificate whose key type does not fit the suite)
+    for vi in ((3, 1) if quick else (3, 2, 1, 0)):
+        for pr in ('rsa', 'ecdsa', 'dsa'):
+            for al in ('rsa', 'ecdsa', 'dsa'):
+                if pr == al:
+                    continue
+                for skip in ('sigalgs', 'suites'):
+                    for dev in (False, True):
+                        cases.append({'multi': pr, 'alt_cred': al, 'skip': skip, 'deviate': dev, 'ver': (3, vi), 'expect': None,
+                                      'seed': ctx.rng.randrange(1 << 30)})
     # clients restricted by one settings word, every version allowed on both sides, nothing cut from the offer
     for field, words in WORD_FIELDS:
         for w in words:
@@ -608,7 +633,7 @@ def run(ctx):
     cases = live_cases(ctx, d, quick)
     with multiprocessing.Pool(vlib.NPROC) as pool:
         results = pool.map(c20_live.run_case, cases, chunksize=4)
-    plain = [c for c in cases if not (c.get('resume') or c.get('psks') or c.get('words') or c.get('negauth'))]
+    plain = [c for c in cases if not (c.get('resume') or c.get('psks') or c.get('words') or c.get('negauth') or c.get('multi'))]
     ctx.log('live: %d cases (%d expected to complete, %d expected to fail, %d judged from the registry alone; %d word clients, '
             '%d resumption sequences, %d external-PSK handshakes, %d negative-authentication handshakes)'
             % (len(results), sum(1 for c in plain if c['expect'] is True), sum(1 for c in plain if c['expect'] is False),
@@ -683,6 +708,34 @@ def run(ctx):
                 good.append(r)
             else:
                 tie_broken = tie_broken or ('resumed connection 0x%04X at (3,%d) [%s]: no application data' % (r['sid'], r['ver'], mode))
+            continue
+        CERT_OF = {'RSA': ('rsa', 'rsa-pss'), 'DSS': ('dsa',), 'ECDSA': ('ecdsa', 'Ed25519', 'Ed448')}
+        if w.get('sh_suite', -1) >= 0 and w.get('sh_ver', 4) < 4 and w.get('wire_cert') not in (None, 'empty'):
+            m2 = iana.meaning(w['sh_suite'])
+            if m2 is not None and w['wire_cert'] not in CERT_OF.get(m2['auth'], ()):
+                if c.get('deviate'):
+                    # the harness made the server do this; the question is whether the CLIENT went along
+                    if r['ok']:
+                        found = ctx.violation('client-accepts-other-cert-type',
+                                              'the client completed 0x%04X %s at (3,%d) although the server authenticated with a %s '
+                                              'certificate (ServerKeyExchange signature: %s) [%s]'
+                                              % (w['sh_suite'], iana.name_of(w['sh_suite']), w['sh_ver'], w['wire_cert'],
+                                                 w.get('sigalg') or 'pre-TLS-1.2', r['cfg']),
+                                              {'kind': 'live', 'case': brief(r), 'how': './check C20 --replay <this file>'}) or found
+                    ctx.count('live(multi-credential server)', 1, [(tuple(c['ver']), c['multi'], c['alt_cred'], c['skip'], True, r['ok'])])
+                    continue
+                found = ctx.violation('server-sends-other-cert-type:0x%04x' % w['sh_suite'],
+                                      'the server answered [%s] with 0x%04X %s at (3,%d) and a %s certificate (ServerKeyExchange '
+                                      'signature: %s); handshake %s'
+                                      % (r['cfg'], w['sh_suite'], iana.name_of(w['sh_suite']), w['sh_ver'], w['wire_cert'],
+                                         w.get('sigalg') or 'pre-TLS-1.2', 'completed' if r['ok'] else r.get('outcome')),
+                                      {'kind': 'live', 'case': brief(r), 'how': './check C20 --replay <this file>'}) or found
+        if c.get('multi'):
+            ctx.count('live(multi-credential server)', 1, [(tuple(c['ver']), c['multi'], c['alt_cred'], c['skip'], bool(c.get('deviate')), r['ok'])])
+            if c.get('deviate') or not r['ok']:
+                continue
+            if r.get('app_ok'):
+                good.append(r)
             continue
         m = iana.meaning(r['sid']) if r['sid'] >= 0 else None
         stream = ('live(word-restricted client)' if c.get('words') else
@@ -824,6 +877,19 @@ def replay(ctx, path):
         r = json.load(f)
     if r.get('kind') == 'live':
         c = r['case']
+        if c.get('case') and c['case'].get('multi'):
+            cc = dict(c['case'])
+            cc['ver'] = tuple(cc['ver'])
+            out = c20_live.run_case(cc)
+            print(json.dumps(brief(out), indent=1, default=str))
+            w = out.get('wire') or {}
+            m2 = iana.meaning(w.get('sh_suite', -1))
+            okc = {'RSA': ('rsa', 'rsa-pss'), 'DSS': ('dsa',), 'ECDSA': ('ecdsa', 'Ed25519', 'Ed448')}
+            bad = []
+            if m2 and w.get('wire_cert') and w['wire_cert'] not in okc.get(m2['auth'], ()) and (out['ok'] or not cc.get('deviate')):
+                bad.append('certificate key type %s under %s' % (w['wire_cert'], iana.name_of(w['sh_suite'])))
+            print('failing checks: %s' % bad)
+            return 1 if bad else 0
         if c.get('case') and c['case'].get('negauth'):
             cc = dict(c['case'])
             cc['ver'] = tuple(cc['ver'])
